@@ -240,22 +240,25 @@ fn strategy(tier: Tier) -> BoxedStrategy<Case> {
     let weight_exp = prop_oneof![3 => Just(0i8), 1 => -30i8..=30, 1 => prop_oneof![Just(-20i8), Just(-17), Just(-16), Just(20)]];
     let value_exp = prop_oneof![4 => Just(0i8), 1 => -30i8..=30];
     (scale(), delta_strategy(), backlog_strategy(), prop::collection::vec(op, 0..maxops), weight_exp, value_exp)
-        .prop_map(|(scale, delta, backlog, ops, weight_exp, value_exp)| {
-            // a rescaled history uses weighted inserts only (a unit weight would drown 1e-20 in rounding)
-            let ops = if weight_exp != 0 {
-                ops.into_iter()
-                    .map(|o| match o {
-                        Op::Insert(x) => Op::InsertW(x, 1.0),
-                        Op::Block { n, lo, .. } => Op::InsertW(lo, n as f64),
-                        o => o,
-                    })
-                    .collect()
-            } else {
-                ops
-            };
-            Case { scale, delta, backlog, ops, weight_exp, value_exp }
-        })
+        .prop_map(|(scale, delta, backlog, ops, weight_exp, value_exp)| normalise(Case { scale, delta, backlog, ops, weight_exp, value_exp }))
         .boxed()
+}
+
+/// A rescaled history uses weighted inserts only (a unit weight would drown 1e-20 in rounding).
+pub fn normalise(c: Case) -> Case {
+    if c.weight_exp == 0 {
+        return c;
+    }
+    let ops = c
+        .ops
+        .into_iter()
+        .map(|o| match o {
+            Op::Insert(x) => Op::InsertW(x, 1.0),
+            Op::Block { n, lo, .. } => Op::InsertW(lo, n as f64),
+            o => o,
+        })
+        .collect();
+    Case { ops, ..c }
 }
 
 pub fn checks() -> Vec<Box<dyn DynCheck>> {
@@ -270,4 +273,8 @@ pub fn run(ctx: &Ctx) {
     ctx.require_class("aggregates", "fusion", 0.3);
     ctx.require_class("aggregates", "zero_weight_inserts", 0.3);
     ctx.require_class("aggregates", "weighted", 0.3);
+    if ctx.tier == Tier::Thorough && !ctx.failed() {
+        // coverage-guided search over the same case space (libFuzzer, 8 parallel campaigns)
+        crate::engine::fuzz::run_tdigest_ops(ctx, 1, 1_600_000);
+    }
 }
